@@ -95,33 +95,41 @@ def lake(args, timeout=3000):
 
 # ----------------------------------------------------------------- extract ---
 
-def build_extract():
-    with Lock("extract"):
-        e = dict(os.environ)
-        e["GOFLAGS"] = "-mod=mod"
-        e["GOPROXY"] = "off"
-        e["GOTOOLCHAIN"] = "local"
-        rc, out, err, _ = sh(["go", "build", "-o", os.path.join(BUILD, "extract"), "."],
-                             cwd=os.path.join(VERIF, "extract"), env=e, timeout=600)
-        if rc != 0:
-            e.pop("GOTOOLCHAIN")
-            rc, out, err, _ = sh(["go", "build", "-o", os.path.join(BUILD, "extract"), "."],
-                                 cwd=os.path.join(VERIF, "extract"), env=e, timeout=600)
-        return rc == 0, out + err
+def build_extract(pid):
+    """One extractor binary per property: shared files (main.go, xlate.go, lib_*.go) + c<nn>*.go."""
+    d = os.path.join(VERIF, "extract")
+    low = pid.lower()
+    files = sorted(f for f in os.listdir(d) if f.endswith(".go") and not f.endswith("_test.go") and
+                   (f in ("main.go", "xlate.go") or f.startswith("lib_") or f == low + ".go" or f.startswith(low + "_")))
+    out = os.path.join(BUILD, "extract_" + pid)
+    os.makedirs(BUILD, exist_ok=True)
+    try:
+        os.remove(out)
+    except FileNotFoundError:
+        pass
+    e = dict(os.environ)
+    e["GOFLAGS"] = "-mod=mod"
+    e["GOPROXY"] = "off"
+    rc, o, er, _ = sh(["go", "build", "-o", out] + files, cwd=d, env=e, timeout=600)
+    return rc == 0, o + er
 
 
 def run_extract(pid):
     """Regenerate lean/WK/Gen/<pid>.lean from /repo. Returns (ok, log)."""
     gen = os.path.join(LEAN, "WK", "Gen")
     os.makedirs(gen, exist_ok=True)
-    if not os.path.exists(os.path.join(BUILD, "extract")):
-        ok, lg = build_extract()
-        if not ok:
-            return False, "extractor does not build: " + lg
-    rc, out, err, _ = sh([os.path.join(BUILD, "extract"), pid, REPO, gen], timeout=300)
+    target = os.path.join(gen, pid + ".lean")
+    ok, lg = build_extract(pid)
+    if not ok:
+        try:
+            os.remove(target)
+        except FileNotFoundError:
+            pass
+        return False, "extractor does not build: " + lg
+    rc, out, err, _ = sh([os.path.join(BUILD, "extract_" + pid), pid, REPO, gen], timeout=300)
     if rc != 0:
         try:
-            os.remove(os.path.join(gen, pid + ".lean"))
+            os.remove(target)
         except FileNotFoundError:
             pass
     return rc == 0, (out + err).strip()
@@ -277,11 +285,11 @@ def parse_cases(joined_lines):
     return cases
 
 
-def run_pipeline(pid, ops_text, harness_bin, timeout=3000):
+def run_pipeline(pid, ops_text, harness_bin, timeout=3000, tag=""):
     """ops -> impl (real code) -> model/judge (Lean driver). Returns dict."""
     env = dict(os.environ)
     env.setdefault("GOMEMLIMIT", "8GiB")
-    scratch = os.path.join(BUILD, "scratch", "%s-%d" % (pid, os.getpid()))
+    scratch = os.path.join(BUILD, "scratch", "%s-%d-%s-%d" % (pid, os.getpid(), tag, int(time.time() * 1e6) % 10**9))
     os.makedirs(scratch, exist_ok=True)
     env["VERIF_SCRATCH"] = scratch
     try:
